@@ -227,6 +227,8 @@ structure State where
   got : Nat → List Nat
   c0 : Nat → Nat
   dropped : List Nat
+  /-- ghost: cell allocated by a `clone` (of that thread) that has not returned yet -/
+  resv : Nat → Option Nat
   /-- ghost: the producer may publish indices below `lim` (`lim ≤ cursor + cap` for every registered cursor) -/
   lim : Nat
   /-- ghost: the slot of the next index has been overwritten but its sequence number not yet stored -/
@@ -242,7 +244,7 @@ def init (cap : Nat) : State :=
     tailsMx := none, flag := 0, pthread := none, pdropped := false, sclosed := false,
     rclosed := fun _ => false, token := fun _ => false, pc := fun _ => .idle,
     sAlive := true, rAlive := fun r => r == 0, sOwner := none, rOwner := fun _ => none,
-    sent := [], got := fun _ => [], c0 := fun _ => 0, dropped := [], lim := 0, dirty := false,
+    sent := [], got := fun _ => [], c0 := fun _ => 0, dropped := [], resv := fun _ => none, lim := 0, dirty := false,
     taint := false, torn := false }
 
 /-- the published cursor list (what a reader that commits now dereferences) -/
@@ -649,7 +651,8 @@ def stepWpUnpark (s : State) (t r : Nat) (k : WK) (th : Nat) : State :=
 def stepCCur (s : State) (t r : Nat) : State :=
   { s.goR t r (.rcv r (.mLock (.clone s.nextCell))) with
     nextCell := s.nextCell + 1, cur := upd s.cur s.nextCell (s.cur r), c0 := upd s.c0 s.nextCell (s.cur r),
-    rclosed := upd s.rclosed s.nextCell false, got := upd s.got s.nextCell [] }
+    rclosed := upd s.rclosed s.nextCell false, got := upd s.got s.nextCell [],
+    resv := upd s.resv s.nextCell (some t) }
 
 def stepMLock (s : State) (t r : Nat) (k : MK) : Option State :=
   if s.tailsMx = none then some { s.goR t r (.rcv r (.mMod k (.wLock (mkOp r k)))) with tailsMx := some t }
@@ -668,7 +671,8 @@ def stepMMod (s : State) (t r : Nat) (k : MK) (p : LPC) : Option State :=
 
 def stepMUnlock (s : State) (t r : Nat) (k : MK) : State :=
   match k with
-  | .clone n => { s.goR t r (.ret .unit) with tailsMx := none, rAlive := upd s.rAlive n true }
+  | .clone n => { s.goR t r (.ret .unit) with tailsMx := none, rAlive := upd s.rAlive n true,
+                                                resv := upd s.resv n none }
   | .unreg => { s.goR t r (.rcv r (.wpFence .unreg)) with tailsMx := none }
 
 def stepXFlag (s : State) (t r : Nat) (isDrop : Bool) : State :=
